@@ -57,7 +57,8 @@ def verify_function(reg: Registry, qualname: str, feas: bool = True) -> Function
             # an unsupported construct on a path that cannot be taken is irrelevant: decide feasibility of the path
             # condition properly (the per-branch pruning uses a short budget and may have let an infeasible path through)
             chk = z3.Solver()
-            chk.set("timeout", 20000)
+            chk.set("rlimit", 20000 * 1700)
+            chk.set("timeout", 160000)
             for a in ctx.pc:
                 chk.add(a)
             for a in ctx.axioms():
